@@ -80,7 +80,8 @@ declare_class("FastaFH", fields={"pos": INT, "g_info": TRef("FastaInfo"), "g_nex
 declare_class("BytesIO", fields={"g_kind": INT, "g_first": INT, "g_n": INT, "g_pos": INT})
 declare_class(
     "FastaIndex",
-    fields={"fasta_fileandle": TRef("FastaFH"), "buffer_size": INT, "index": TDict(STR, TRef("FastaInfo"))},
+    fields={"fasta_fileandle": TRef("FastaFH"), "buffer_size": INT, "index": TDict(STR, TRef("FastaInfo")),
+            "fasta_file": TRef("Path"), "fai_file": TRef("Path"), "agp_file": TRef("Path")},
 )
 # binary output stream of FastaStream: ghost column of the current line, residues written for the
 # current record, and the line length the writes are checked against
@@ -89,3 +90,5 @@ declare_class(
     "FastaStream",
     fields={"out": TRef("BinOut"), "index": TRef("FastaIndex"), "line_length": INT, "gap_character": BYTES},
 )
+# a filesystem path: ghost existence and modification time of the file it names
+declare_class("Path", fields={"g_exists": BOOL, "g_mtime": REAL})
